@@ -14,8 +14,8 @@ import BufrModel.SoftFloat
     getRange       : Desc → Enc → Rat × Rat        bufr_descriptor_get_range  (bufr_desc.c:507, numeric/code/flag)
     isMissingDouble/isMissingFloat : FP → Bool     bufr_is_missing_double/float (bufr_value.c:1340)
     setDvalueAccepts : Desc → Enc → FP → Bool      range test of bufr_descriptor_set_dvalue (bufr_desc.c:704–716)
-    int32ViaFloat  : Desc → Enc → Int → Nat        the INT32-with-reference path of bufr_put_desc_value
-                                                   (bufr_dataset.c:1715): cvt_fval_to_i32(…, (float)i32val)
+    int32Path      : Desc → Enc → Int → Nat        the INT32-with-reference path of bufr_put_desc_value /
+                                                   bufr_value2bits: cvt_dval_to_i64(…, (double)i32val)
 
   Finite doubles/floats are exact rationals (`SF.FP`); a decoded value is always finite, so the
   decoders return `Rat` (`maxDouble`/`maxFloat` = the library's "missing").
@@ -25,6 +25,8 @@ import BufrModel.SoftFloat
   fl 53 (10^s)` — a CONTRACT on libm (correctly rounded for these arguments), checked at run time
   by the `scale.powcheck` op against the 41 bit patterns the harness prints.
   Float→integer casts out of range (UB in C) follow x86-64 (`SF.cast*`); no theorem depends on them.
+  For `scale < 0` the C multiplies by the exact `pow(10,-scale)` (decoder, range bounds) and divides by
+  it (encoder) instead of using the inexact `pow(10,scale)`.
   Side effects on the library's diagnostic globals (bufr_errcode, bufr_minimum_nbits, …) and the
   debug text are not modelled.
 -/
@@ -41,10 +43,9 @@ structure Enc where
 /-- `pow(10.0, (double)s)` (contract: correctly rounded) -/
 def pow10 (s : Int) : Rat := fl 53 (pow10r s)
 
-/-- `bufr_missing_ivalue`: all ones on `nbits` bits.  `nbits ≥ 64` reads `msng_values[64]`, which
-was initialised with `(1ULL << 64) - 1` — UB; gcc/x86-64 yields 0 (DESIGN §10 #23). -/
+/-- `bufr_missing_ivalue`: all ones on `nbits` bits (`nbits ≥ 64` reads `msng_values[64] = ~0ULL`) -/
 def missingIvalue (nbits : Int) : Nat :=
-  if nbits ≤ 0 then 0 else if nbits ≥ 64 then 0 else 2 ^ nbits.toNat - 1
+  if nbits ≤ 0 then 0 else if nbits ≥ 64 then 2 ^ 64 - 1 else 2 ^ nbits.toNat - 1
 
 def isMissingDouble : FP → Bool
   | .nan => true
@@ -62,6 +63,9 @@ def isMissingFloat : FP → Bool
 def cvtI64ToDval (e : Enc) (ival : Int) : Rat :=
   let missing : Int := missingIvalue e.nbits
   if ival < 0 ∨ ival = missing then maxDouble else
+  if e.scale < 0 then
+    fl 53 (fl 53 ((ival + e.ref : Int) : Rat) * pow10 (-e.scale))   -- (double)(ival+ref) * pow(10,-scale)
+  else
   let P := pow10 e.scale
   if e.ref < 0 ∧ ival < -e.ref then
     fl 53 (fl 53 ((ival + e.ref : Int) : Rat) / P)      -- (double)(int64_t)(ival+ref) / val_pow
@@ -72,6 +76,13 @@ def cvtI64ToDval (e : Enc) (ival : Int) : Rat :=
 def cvtI32ToFval (e : Enc) (ival : Nat) : Rat :=
   let missing := missingIvalue e.nbits % 2^32          -- uint32_t missing = (uint64_t)…
   if ival = missing then maxFloat else
+  if e.scale < 0 then
+    let Q := fl 24 (pow10 (-e.scale))                   -- float val_pow = pow(10,-scale)
+    if e.ref < 0 ∧ ival < wrapU32 (-e.ref) then
+      fl 24 (fl 24 (wrapI32 ((ival : Int) + e.ref) : Rat) * Q)
+    else
+      fl 24 (fl 24 (wrapU32 ((ival : Int) + e.ref) : Rat) * Q)
+  else
   let Pf := fl 24 (pow10 e.scale)                       -- float val_pow = pow(…)
   if e.ref < 0 ∧ ival < wrapU32 (-e.ref) then
     let v := wrapI32 ((ival : Int) + e.ref)             -- (int32_t)(ival + reference)
@@ -82,11 +93,18 @@ def cvtI32ToFval (e : Enc) (ival : Nat) : Rat :=
 
 /-! ### encode: physical → raw (double path) -/
 
-/-- `fmin = be->reference / val_pow` -/
-def dFmin (e : Enc) : Rat := fl 53 ((e.ref : Rat) / pow10 e.scale)
-/-- `fmax = ((maxval-1) + be->reference) / val_pow`, the sum in `uint64_t` (wraps when negative) -/
+/-- `fmin`: `reference / val_pow`, or `reference * inv_pow` with `inv_pow = pow(10,-scale)` for `scale < 0` -/
+def dFmin (e : Enc) : Rat :=
+  if e.scale < 0 then fl 53 ((e.ref : Rat) * pow10 (-e.scale))
+  else fl 53 ((e.ref : Rat) / pow10 e.scale)
+/-- `fmax`: `((int64_t)(maxval-1) + reference)` divided by `val_pow` (multiplied by `inv_pow`) -/
 def dFmax (e : Enc) : Rat :=
-  fl 53 (fl 53 (wrapU64 (2 ^ e.nbits - 1 - 1 + e.ref) : Rat) / pow10 e.scale)
+  let M : Int := 2 ^ e.nbits - 1 - 1 + e.ref
+  if e.scale < 0 then fl 53 (fl 53 (M : Rat) * pow10 (-e.scale))
+  else fl 53 (fl 53 (M : Rat) / pow10 e.scale)
+/-- `ival_pow = (val_pow < 9.0e18) ? (int64_t)val_pow : 0` -/
+def dIpow (e : Enc) : Int :=
+  if pow10 e.scale < 9 * 10 ^ 18 then castI64 (ctrunc (pow10 e.scale)) else 0
 
 /-- first computation in the `scale ≥ 0` branch: `val1`, `ival = round(val1*val_pow)`,
 `delta = maxval - ival` narrowed to `int` -/
@@ -106,15 +124,20 @@ def dBranchA (e : Enc) (fval : Rat) : Nat :=
 /-- branch `fval > 0.0` -/
 def dBranchB (e : Enc) (fval : Rat) : Nat :=
   let P := pow10 e.scale
-  let ipow := castI32 (ctrunc P)                                       -- int ival_pow = val_pow
+  let ipow := dIpow e
   let t := castU64 (ctrunc fval)                                       -- ival = fval
-  let sval := wrapU64 ((t : Int) * ipow)                               -- uint64 * int
+  let sval := wrapU64 ((t : Int) * ipow)                               -- uint64 * int64
   let rem := castU64 (cround (fl 53 (fl 53 (fval - fl 53 (t : Rat)) * P)))
   wrapU64 ((wrapU64 ((sval : Int) - e.ref) : Int) + rem)
 
-/-- branch `fval ≤ 0.0`, and the whole `scale < 0` branch -/
+/-- branch `fval ≤ 0.0` (`scale ≥ 0`) -/
 def dBranchC (e : Enc) (fval : Rat) : Nat :=
   let sval := castI64 (cround (fl 53 (fval * pow10 e.scale)))          -- int64_t sval = round(…)
+  wrapU64 (sval - e.ref)
+
+/-- the `scale < 0` branch: `round(fval / inv_pow) - reference` -/
+def dBranchNeg (e : Enc) (fval : Rat) : Nat :=
+  let sval := castI64 (cround (fl 53 (fval / pow10 (-e.scale))))
   wrapU64 (sval - e.ref)
 
 /-- `bufr_cvt_dval_to_i64(code, be, fval)` -/
@@ -131,21 +154,27 @@ def cvtDvalToI64 (code : Desc) (e : Enc) (x : FP) : Nat :=
       -- overflow = 1; class 31: ival = (int)fval; if (ival == maxval) overflow = 0
       if Desc.x code = 31 ∧ wrapU64 (castI32 (ctrunc fval)) = maxval then maxval else missing
     else if fval < dFmin e then maxval                                 -- underflow: ival = maxval
-    else if 0 ≤ e.scale then
+    else
       let ival :=
-        if dDelta e fval < e.ref then dBranchA e fval
-        else if fval > 0 then dBranchB e fval
-        else dBranchC e fval
-      if ival ≥ maxval then missing else ival
-    else dBranchC e fval
+        if 0 ≤ e.scale then
+          (if dDelta e fval < e.ref then dBranchA e fval
+           else if fval > 0 then dBranchB e fval
+           else dBranchC e fval)
+        else dBranchNeg e fval
+      if ival ≥ maxval then missing else ival                          -- both branches test overflow
 
 /-! ### encode: physical → raw (single-precision path) -/
 
 def fPow (e : Enc) : Rat := fl 24 (pow10 e.scale)                     -- float val_pow = pow(…)
-/-- `fmin = be->reference / val_pow` : `(float)reference / val_pow` in float -/
-def fFmin (e : Enc) : Rat := fl 24 (fl 24 (e.ref : Rat) / fPow e)
+def fInv (e : Enc) : Rat := fl 24 (pow10 (-e.scale))                  -- float inv_pow = pow(10,-scale)
+/-- `fmin`: `(float)reference / val_pow`, or `(float)reference * inv_pow` for `scale < 0`, in float -/
+def fFmin (e : Enc) : Rat :=
+  if e.scale < 0 then fl 24 (fl 24 (e.ref : Rat) * fInv e) else fl 24 (fl 24 (e.ref : Rat) / fPow e)
 def fFmax (e : Enc) : Rat :=
-  fl 24 (fl 24 (wrapU64 (2 ^ e.nbits - 1 - 1 + e.ref) : Rat) / fPow e)
+  let M : Int := 2 ^ e.nbits - 1 - 1 + e.ref
+  if e.scale < 0 then fl 24 (fl 24 (M : Rat) * fInv e) else fl 24 (fl 24 (M : Rat) / fPow e)
+def fIpow (e : Enc) : Int :=
+  if fPow e < 9 * 10 ^ 18 then castI64 (ctrunc (fPow e)) else 0
 /-- `val1 = fval - (be->reference / val_pow)` evaluated in float, stored in a double -/
 def fVal1 (e : Enc) (fval : Rat) : Rat := fl 24 (fval - fl 24 (fl 24 (e.ref : Rat) / fPow e))
 def fDelta (e : Enc) (fval : Rat) : Int :=
@@ -161,14 +190,18 @@ def fBranchA (e : Enc) (fval : Rat) : Nat :=
 
 def fBranchB (e : Enc) (fval : Rat) : Nat :=
   let P := fPow e
-  let ipow := castI32 (ctrunc P)                                       -- int ival_pow = (float)pow(…)
+  let ipow := fIpow e
   let t := castU32 (ctrunc fval)
   let sval := wrapU32 ((t : Int) * ipow)
   let rem := castU32 (cround (fl 24 (fl 24 (fval - fl 24 (t : Rat)) * P)))
   wrapU32 ((wrapU32 ((sval : Int) - e.ref) : Int) + rem)
 
 def fBranchC (e : Enc) (fval : Rat) : Nat :=
-  let sval := castI32 (cround (fl 24 (fval * fPow e)))                 -- int32_t sval = round(fval*val_pow)
+  let sval := castI64 (cround (fl 24 (fval * fPow e)))                 -- int64_t sval = round(fval*val_pow)
+  wrapU32 (sval - e.ref)
+
+def fBranchNeg (e : Enc) (fval : Rat) : Nat :=
+  let sval := castI64 (cround (fl 24 (fval / fInv e)))                 -- int64_t sval = round(fval/inv_pow)
   wrapU32 (sval - e.ref)
 
 /-- `bufr_cvt_fval_to_i32(code, be, fval)` -/
@@ -184,28 +217,34 @@ def cvtFvalToI32 (code : Desc) (e : Enc) (x : FP) : Nat :=
     if fval > fFmax e then
       if Desc.x code = 31 ∧ wrapU32 (castI32 (ctrunc fval)) = maxval then maxval else missing
     else if fval < fFmin e then maxval
-    else if 0 ≤ e.scale then
+    else
       let ival :=
-        if fDelta e fval < e.ref then fBranchA e fval
-        else if fval > 0 then fBranchB e fval
-        else fBranchC e fval
+        if 0 ≤ e.scale then
+          (if fDelta e fval < e.ref then fBranchA e fval
+           else if fval > 0 then fBranchB e fval
+           else fBranchC e fval)
+        else fBranchNeg e fval
       if ival ≥ maxval then missing else ival
-    else fBranchC e fval
 
-/-- `bufr_put_desc_value`, `VALTYPE_INT32` with a reference or scale (bufr_dataset.c:1715):
-the integer goes through `(float)` -/
-def int32ViaFloat (code : Desc) (e : Enc) (v : Int) : Nat :=
-  cvtFvalToI32 code e (.fin (fl 24 (v : Rat)))
+/-- `bufr_put_desc_value` / `bufr_value2bits`, `VALTYPE_INT32` with a reference or scale
+(bufr_dataset.c): `bufr_cvt_dval_to_i64(desc, be, (double)i32val)` — a double holds any int32 exactly.
+(Before repository commit 8cba48a the integer went through `(float)` and the single-precision
+encoder, DESIGN §10 #11; `C08_int32_via_float_fails` records what that did.) -/
+def int32Path (code : Desc) (e : Enc) (v : Int) : Nat :=
+  cvtDvalToI64 code e (.fin (v : Rat))
 
 /-! ### range and range test -/
 
 /-- `bufr_descriptor_get_range` for numeric / code table / flag table elements: `(min, max)` -/
 def getRange (code : Desc) (e : Enc) : Rat × Rat :=
-  let P := pow10 e.scale
   let imax : Int := (2:Int) ^ e.nbits - 1
-  let mx := if Desc.x code = 31 then fl 53 (fl 53 ((imax + e.ref : Int) : Rat) / P)
-            else fl 53 (fl 53 ((imax - 1 + e.ref : Int) : Rat) / P)
-  (fl 53 ((e.ref : Rat) / P), mx)
+  let top : Int := (if Desc.x code = 31 then imax else imax - 1) + e.ref
+  if e.scale < 0 then
+    let Q := pow10 (-e.scale)
+    (fl 53 ((e.ref : Rat) * Q), fl 53 (fl 53 (top : Rat) * Q))
+  else
+    let P := pow10 e.scale
+    (fl 53 ((e.ref : Rat) / P), fl 53 (fl 53 (top : Rat) / P))
 
 /-- range test of `bufr_descriptor_set_dvalue`: a missing value is stored as is; a finite value is
 kept iff `min ≤ dval ≤ max`, otherwise the element becomes missing (return −1) -/
